@@ -6,7 +6,10 @@
 (*   "HS"  line = one handshake between two real mse.Stream endpoints on   *)
 (*           an in-memory pipe with scripted fragmentation;                *)
 (*   "POL" line = one btconn.Dial / btconn.Accept scenario over loopback   *)
-(*           TCP through a recording tap.                                  *)
+(*           TCP through a recording tap;                                  *)
+(*   "SES" line = one real torrent.Session (encryption switches of its     *)
+(*           Config) dialing a raw scripted listener that records how      *)
+(*           every connection attempt starts.                              *)
 (*                                                                         *)
 (* For every line the scenario is loaded (TrLoad), the step machine of     *)
 (* MSE.tla is run to its end with the pads / first-read sizes of the line  *)
@@ -46,7 +49,8 @@ TraceInit ==
 
 TrLoad ==
     /\ ph = "idle" /\ l <= Len(Trace)
-    /\ Ev.op \in {"HS", "POL"}
+    /\ Ev.op \in {"HS", "POL", "SES"}
+    /\ (Ev.op = "SES" => (Ev.dk = "rain" /\ Ev.ck \in {"plainonly", "mse", "any"} /\ Ev.natt >= 1))
     /\ ScOK(ScOf(Ev))
     /\ (Ev.op = "HS" => Ev.steer = 1)          \* the pad hook steered the real run as recorded
     /\ ResetWith(ScOf(Ev))
@@ -113,11 +117,29 @@ JudgePOL(e) ==
     ELSE IF e.natt # att THEN "C12.model"
     ELSE ""
 
+\* ---- one real torrent.Session (configuration switches Disable/ForceOutgoingEncryption -> enable / force) that was told
+\* the address of a raw scripted listener of kind ck.  natt = connection attempts seen by the listener, nplain = how many of
+\* them started with the plaintext BitTorrent handshake, p1 / p2 = 1 iff the first / second attempt did (-1: no such attempt
+\* or fewer than 20 bytes sent), rb = result of the listener on the last attempt.
+\* Stated obligation: forced => no attempt is ever made in plaintext.  The other expectations of the policy layer (default:
+\* MSE first, plaintext only as the retry; disabled: plaintext only; number of attempts) are conformance with the model,
+\* not obligations of C12: "C12.model".
+JudgeSES(e) ==
+    LET firstPlain == IF UseMSE THEN 0 ELSE 1
+        wantPlain  == firstPlain + (IF att = 2 THEN 1 ELSE 0)
+    IN
+    IF sc.force /\ (e.nplain > 0 \/ e.p1 = 1 \/ e.p2 = 1) THEN "C12.forced.out"      \* @obligation C12.forced.out
+    ELSE IF e.natt # att \/ e.p1 # firstPlain \/ e.nplain # wantPlain THEN "C12.model"
+    ELSE IF att = 2 /\ e.p2 # 1 THEN "C12.model"
+    ELSE IF OK(e.rb) # (c.res = "ok") THEN "C12.model"
+    ELSE IF OK(e.rb) /\ e.cb # c.cipher THEN "C12.model"
+    ELSE ""
+
 \* The tag is also printed: with Trace_MSE_all.cfg (no INVARIANT NoViolation) one TLC run judges every line of
 \* the file and the driver collects all "@@VIOL <line> <tag>" lines instead of re-running after each violation.
 TrJudge ==
     /\ ph = "run" /\ Done
-    /\ LET tag == IF Ev.op = "HS" THEN JudgeHS(Ev) ELSE JudgePOL(Ev) IN
+    /\ LET tag == IF Ev.op = "HS" THEN JudgeHS(Ev) ELSE IF Ev.op = "POL" THEN JudgePOL(Ev) ELSE JudgeSES(Ev) IN
        /\ viol' = tag
        /\ (tag # "" => PrintT("@@VIOL " \o ToString(l) \o " " \o tag))
     /\ l' = l + 1
